@@ -351,6 +351,43 @@ where
           Err(e) => format!("err {}", kind_str(&e)),
         },
         "I" => "ok".to_string(),
+        // count-only variants for fuzzing (outputs can be millions of numbers)
+        "d" => match d.simple_decompress() {
+          Ok(v) => format!("ok n={}", v.len()),
+          Err(e) => format!("err {}", kind_str(&e)),
+        },
+        "b" => match d.chunk_body() {
+          Ok(v) => format!("ok n={}", v.len()),
+          Err(e) => format!("err {}", kind_str(&e)),
+        },
+        "m" => match d.chunk_metadata() {
+          Ok(Some(m)) => format!("ok meta n={}", m.n),
+          Ok(None) => "ok none".to_string(),
+          Err(e) => format!("err {}", kind_str(&e)),
+        },
+        "r" => {
+          let mut count = 0usize;
+          let mut items = 0usize;
+          let mut last = "none".to_string();
+          loop {
+            items += 1;
+            if items > 40_000_000 {
+              last = "hang".to_string();
+              break;
+            }
+            match (&mut d).next() {
+              None => break,
+              Some(Ok(DecompressedItem::Numbers(v))) => count += v.len(),
+              Some(Ok(DecompressedItem::Footer)) => last = "footer".to_string(),
+              Some(Ok(_)) => (),
+              Some(Err(e)) => {
+                last = format!("err {}", kind_str(&e));
+                break;
+              }
+            }
+          }
+          format!("drained n={} last={}", count, last)
+        }
         "G" => format!("dbg {:016x}", debug_hash(&d)),
         _ => "bad-op".to_string(),
       }
@@ -766,6 +803,57 @@ where
   }
 }
 
+
+// ---------------------------------------------------------------------------------------------
+// mt <dt> <level> <order> <gcds> <threads> <nums>: the same chunk compressed concurrently in several
+// threads (each with its own Compressor, after a different number of warm-up chunks)
+//   -> ok same=<0|1> bytes=<chunk bytes of thread 0>
+
+fn cmd_mt<T: Ty + Send + Sync>(args: &[&str]) -> String
+where
+  T::Signed: Ty,
+{
+  let level: usize = args[0].parse().unwrap();
+  let order: usize = args[1].parse().unwrap();
+  let gcds = args[2] == "1";
+  let threads: usize = args[3].parse().unwrap();
+  let nums = std::sync::Arc::new(parse_nums::<T>(args[4]));
+  let mut handles = Vec::new();
+  for t in 0..threads {
+    let nums = nums.clone();
+    handles.push(std::thread::spawn(move || -> Result<Vec<u8>, String> {
+      let config = CompressorConfig::default()
+        .with_compression_level(level)
+        .with_delta_encoding_order(order)
+        .with_use_gcds(gcds);
+      let mut c = Compressor::<T>::from_config(config);
+      c.header().map_err(|e| kind_str(&e).to_string())?;
+      // different histories per thread: t warm-up chunks of other data
+      for w in 0..(t % 4) {
+        let warm: Vec<T> = (0..(10 + w * 7)).map(|i| T::from_pat(((i * 37 + t) % 2) as u128)).collect();
+        c.chunk(&warm).map_err(|e| kind_str(&e).to_string())?;
+      }
+      if t % 2 == 0 {
+        c.drain_bytes();
+      }
+      let before = c.byte_size();
+      c.chunk(&nums).map_err(|e| kind_str(&e).to_string())?;
+      let all = c.drain_bytes();
+      Ok(all[before..].to_vec())
+    }));
+  }
+  let mut outs = Vec::new();
+  for h in handles {
+    match h.join() {
+      Ok(Ok(b)) => outs.push(b),
+      Ok(Err(e)) => return format!("err {}", e),
+      Err(_) => return "panic thread".to_string(),
+    }
+  }
+  let same = outs.iter().all(|b| *b == outs[0]);
+  format!("ok same={} bytes={}", same as u8, bytes_to_hex(&outs[0]))
+}
+
 // ---------------------------------------------------------------------------------------------
 
 fn answer(line: &str) -> String {
@@ -783,6 +871,7 @@ fn answer(line: &str) -> String {
       "rawbytes" => dispatch!(toks[1], cmd_rawbytes, &toks[2..]),
       "auto" => dispatch!(toks[1], cmd_auto, &toks[2..]),
       "rt" => dispatch!(toks[1], cmd_rt, &toks[2..]),
+      "mt" => dispatch!(toks[1], cmd_mt, &toks[2..]),
       "bigrt" => dispatch!(toks[1], cmd_bigrt, &toks[2..]),
       "ts" => cmd_ts(&toks[1..]),
       _ => "bad-op".to_string(),
